@@ -13,8 +13,41 @@ namespace Blots
 /-! ### SerializableValue::from_value and stringify -/
 
 mutual
+/-- `SerializableValue::from_captured_value` (`from_value_at(.., captured = true)`): the value
+    will be written into the source of the function that captured it, where a captured
+    function appears as `((args) => body)`: a body that is a via / into / where chain gets
+    parentheses of its own (`lambda_body_to_source`) -/
+def capturedToSV : Value → Option SV
+  | .num x => some (.num x)
+  | .bool b => some (.bool b)
+  | .null => some .null
+  | .str s => some (.str s)
+  | .list xs => (capturedsToSV xs).map .list
+  | .record kvs => (capturedRecToSV kvs).map .record
+  | .lambda _ args body scope =>
+    match capturedRecToSV scope with
+    | some sc => some (.lambda args (parenIf (lambdaBodyNeedsParens body) (exprSrc sc body)))
+    | none => none
+  | .builtin n => some (.builtin n)
+  | .spread _ => none
+def capturedsToSV : List Value → Option (List SV)
+  | [] => some []
+  | v :: vs =>
+    match capturedToSV v, capturedsToSV vs with
+    | some x, some xs => some (x :: xs)
+    | _, _ => none
+def capturedRecToSV : List (String × Value) → Option (List (String × SV))
+  | [] => some []
+  | (k, v) :: r =>
+    match capturedToSV v, capturedRecToSV r with
+    | some x, some xs => some ((k, x) :: xs)
+    | _, _ => none
+end
+
+mutual
 /-- `SerializableValue::from_value`: `none` = "cannot serialize a spread value".  The lambda
-    case inlines the captured scope into the body text (`expr_to_source_with_scope`). -/
+    case inlines the captured scope into the body text (`expr_to_source_with_scope`); the
+    text of the emitted function itself is not parenthesised. -/
 def valueToSV : Value → Option SV
   | .num x => some (.num x)
   | .bool b => some (.bool b)
@@ -23,8 +56,8 @@ def valueToSV : Value → Option SV
   | .list xs => (valuesToSV xs).map .list
   | .record kvs => (recordToSV kvs).map .record
   | .lambda _ args body scope =>
-    match recordToSV scope with
-    | some sc => some (.lambda args (parenIf (lambdaBodyNeedsParens body) (exprSrc sc body)))
+    match capturedRecToSV scope with
+    | some sc => some (.lambda args (exprSrc sc body))
     | none => none
   | .builtin n => some (.builtin n)
   | .spread _ => none
@@ -47,7 +80,7 @@ end
 def scopeForStringify : List (String × Value) → List (String × SV)
   | [] => []
   | (k, v) :: r =>
-    match valueToSV v with
+    match capturedToSV v with
     | some x => (k, x) :: scopeForStringify r
     | none => scopeForStringify r
 
@@ -59,7 +92,7 @@ def stringify (ops : NumOps) (wrap disp : Bool) : Value → String
   | .record kvs => "{" ++ ", ".intercalate (stringifyRec ops wrap disp kvs) ++ "}"
   | .lambda _ args body scope =>
     "(" ++ ", ".intercalate (args.map lambdaArgToSource) ++ ") => " ++
-      parenIf (lambdaBodyNeedsParens body) (exprSrc (scopeForStringify scope) body)
+      exprSrc (scopeForStringify scope) body
   | .builtin n => n ++ " (built-in)"
   | .spread (.list xs) => "..." ++ String.join (stringifyList ops wrap disp xs)
   | .spread (.str s) => "..." ++ s
